@@ -5,7 +5,7 @@
   (clients, origin, context, callers) from the initial state; no bound on the number of
   connections, steps or CALLS of Shutdown / Close (any number of them, one after the other or
   concurrently, each Shutdown with a context of its own), and over every shutdown configuration
-  (deadline or none, shutdown signals or none; sections G, I).
+  (deadline or none, any SET of shutdown signals, any signal delivered at any time; sections G, I, J).
   Helper lemmas: `Lemmas/C11Step|C11|C11Inv|C11Progress|C11Ctx|C11Tunnel.lean`.
 
   Reading of the ghost fields of a connection (`Model/C11.lean`):
@@ -518,42 +518,48 @@ example : ∃ s, Reachable s ∧ s.lock = .shutdown 0 ∧ counted (s.conns 0).pc
 /-! ## G. The contexts handed to `Shutdown`, and `HTTPProxy.run`
 
   Every call of `Shutdown` has a context of its own: with or without a deadline (`noLimit`), one that
-  somebody can cancel or not (`cancellable`).  `run` builds its context with `shutdownContext` from the
-  configuration: shutdown timeout 0 = no deadline (`cfgNoLimit`), `ShutdownSignals` non-empty = a second
-  signal during the drain cancels it (`cfgSignals`).  The configuration is a parameter of the initial
-  state; the theorems hold for every reachable state of every such system. -/
+  its caller can cancel or not (`cancellable`), subscribed to a set of signals (`sigs`).  `run` builds its
+  context with `shutdownContext` from the configuration: shutdown timeout 0 = no deadline (`cfgNoLimit`),
+  `ShutdownSignals` = the SET of signals whose delivery during the drain cancels it (`cfgSignals`; empty = no
+  subscription at all).  The configuration is a parameter of the initial state; the theorems hold for every
+  reachable state of every such system. -/
 
 /-- the kind of a call's context is fixed at the call, and a context that is done stays done for the
     reason for which it became done (`ctx.Err()` never changes) -/
 theorem c11_ctx_fixed {s s' : State} (k : CallId) (a : Action) (hst : step s a = some s')
     (hc : (s.shuts k).pc ≠ .idle) :
     (s'.shuts k).noLimit = (s.shuts k).noLimit ∧ (s'.shuts k).cancellable = (s.shuts k).cancellable ∧
+      (s'.shuts k).sigs = (s.shuts k).sigs ∧
       ∀ w, (s.shuts k).done = some w → (s'.shuts k).done = some w :=
   step_ctx_fixed k a hst hc
 
 /-- a context is done for a reason its kind allows: `DeadlineExceeded` only with a deadline, `Canceled`
-    only if somebody can cancel it -/
+    only if its caller can cancel it or it is subscribed to some signal -/
 theorem c11_ctx_done_reason {s : State} (h : Reachable s) (k : CallId) :
     ((s.shuts k).done = some .deadline → (s.shuts k).noLimit = false) ∧
-    ((s.shuts k).done = some .cancel → (s.shuts k).cancellable = true) :=
+    ((s.shuts k).done = some .cancel → (s.shuts k).cancellable = true ∨ (s.shuts k).sigs ≠ []) :=
   ⟨(ctxinv_reachable h).kindD k, (ctxinv_reachable h).kindC k⟩
 
-/-- a context without deadline that nobody can cancel is never done -/
+/-- a context without deadline that nobody can cancel (not its caller, no signal) is never done -/
 theorem c11_nolimit_ctx_never_done {s : State} (h : Reachable s) (k : CallId)
-    (hn : (s.shuts k).noLimit = true) (hc : (s.shuts k).cancellable = false) : (s.shuts k).done = none := by
+    (hn : (s.shuts k).noLimit = true) (hc : (s.shuts k).cancellable = false) (hsg : (s.shuts k).sigs = []) :
+    (s.shuts k).done = none := by
   have hr := c11_ctx_done_reason h k
   cases hd : (s.shuts k).done with
   | none => rfl
   | some w =>
     cases w with
     | deadline => have := hr.1 hd; rw [hn] at this; cases this
-    | cancel => have := hr.2 hd; rw [hc] at this; cases this
+    | cancel =>
+      rcases hr.2 hd with h1 | h1
+      · rw [hc] at h1; cases h1
+      · exact absurd hsg h1
 
 /-- … hence such a call of `Shutdown` never returns the context's error -/
 theorem c11_nolimit_shutdown_never_errs {s : State} (h : Reachable s) (k : CallId)
-    (hn : (s.shuts k).noLimit = true) (hc : (s.shuts k).cancellable = false) :
+    (hn : (s.shuts k).noLimit = true) (hc : (s.shuts k).cancellable = false) (hsg : (s.shuts k).sigs = []) :
     (s.shuts k).pc ≠ .retErr ∧ (s.shuts k).pc ≠ .doneErr := by
-  have hd := c11_nolimit_ctx_never_done h k hn hc
+  have hd := c11_nolimit_ctx_never_done h k hn hc hsg
   constructor <;> intro hs
   · have := (inv_reachable h).errCtx k (Or.inl hs); rw [hd] at this; cases this
   · have := (inv_reachable h).errCtx k (Or.inr hs); rw [hd] at this; cases this
@@ -563,10 +569,10 @@ theorem c11_nolimit_shutdown_never_errs {s : State} (h : Reachable s) (k : CallI
     environment), it reaches `return nil` iff that action is its own poll and the counter is 0 — and it
     never reaches `return ctx.Err()` -/
 theorem c11_nolimit_shutdown_nil_iff_drained {s s' : State} (h : Reachable s) (k : CallId)
-    (hn : (s.shuts k).noLimit = true) (hcb : (s.shuts k).cancellable = false)
+    (hn : (s.shuts k).noLimit = true) (hcb : (s.shuts k).cancellable = false) (hsg : (s.shuts k).sigs = [])
     (hw : (s.shuts k).pc = .polling ∨ (s.shuts k).pc = .selecting) (a : Action) (hst : step s a = some s') :
     ((s'.shuts k).pc = .retNil ↔ (a = .shutPoll k ∧ s.counter = 0)) ∧ (s'.shuts k).pc ≠ .retErr := by
-  have hc := c11_nolimit_ctx_never_done h k hn hcb
+  have hc := c11_nolimit_ctx_never_done h k hn hcb hsg
   rcases step_shut_waiting k a hst hw with ⟨ha, hs⟩ | ⟨ha, hs⟩ | ⟨_, he, _⟩ | ⟨h1, h2, hs⟩
   · subst ha
     by_cases h0 : s.counter = 0
@@ -577,11 +583,12 @@ theorem c11_nolimit_shutdown_nil_iff_drained {s s' : State} (h : Reachable s) (k
   · rw [hs]
     rcases hw with hw | hw <;> simp [hw, h1]
 
-/-- the context `run` hands to `Shutdown` is the one the configuration describes -/
+/-- the context `run` hands to `Shutdown` is the one the configuration describes: its deadline, and the
+    subscription to exactly the configured SET of signals; nobody else can cancel it -/
 theorem c11_run_ctx_is_configured {s : State} (h : Reachable s)
     (hr : s.runner = .inShutdown ∨ s.runner = .inClose ∨ s.runner = .finished) :
     (s.shuts s.runShut).pc ≠ .idle ∧ (s.shuts s.runShut).noLimit = s.cfgNoLimit ∧
-      (s.shuts s.runShut).cancellable = s.cfgSignals :=
+      (s.shuts s.runShut).cancellable = false ∧ (s.shuts s.runShut).sigs = s.cfgSignals :=
   (ctxinv_reachable h).kind (by rcases hr with h | h | h <;> simp [ctl, h, runnerPast])
 
 /-- the configuration is fixed: no action changes it -/
@@ -611,7 +618,7 @@ theorem c11_run_closes_only_after_ctx_done {s : State} (h : Reachable s) (hr : s
 /-- with a context that is never done (no deadline, no shutdown signals) `run` never calls `Close`: from
     the cancellation on, every `Close` stays idle (so no socket is ever closed by a sweep of the map) -/
 theorem c11_nolimit_run_never_closes {s : State} (h : Reachable s) (hn : s.cfgNoLimit = true)
-    (hsg : s.cfgSignals = false) (hr : s.runner ≠ .idle) : (∀ k, s.closes k = .idle) ∧ s.runner ≠ .inClose := by
+    (hsg : s.cfgSignals = []) (hr : s.runner ≠ .idle) : (∀ k, s.closes k = .idle) ∧ s.runner ≠ .inClose := by
   have hi := ctxinv_reachable h
   have hci : ∀ k, s.closes k = .idle := by
     intro k
@@ -622,7 +629,7 @@ theorem c11_nolimit_run_never_closes {s : State} (h : Reachable s) (hn : s.cfgNo
       have hp := hi.onlyS (hi.apiRun hr) s.runShut (by
         rw [show (ctl s).shuts s.runShut = s.shuts s.runShut from rfl, hc.2.1]; simp)
       have hk := hi.kind hp.1
-      have := c11_nolimit_ctx_never_done h s.runShut (hk.2.1.trans hn) (hk.2.2.trans hsg)
+      have := c11_nolimit_ctx_never_done h s.runShut (hk.2.1.trans hn) hk.2.2.1 (hk.2.2.2.trans hsg)
       rw [this] at hc; cases hc.2.2
   exact ⟨hci, fun hic => (hi.inClose hic).2 (hci _)⟩
 
@@ -635,7 +642,7 @@ def connSettled (x : Conn) : Prop :=
 /-- … and `run` returns only after `Shutdown` returned nil, i.e. (B) after the counter reached 0
     with every served connection closed by its own handler -/
 theorem c11_nolimit_run_returns_after_drain {s s' : State} (h : Reachable s) (hn : s.cfgNoLimit = true)
-    (hsg : s.cfgSignals = false) (hst : step s .runRet = some s') :
+    (hsg : s.cfgSignals = []) (hst : step s .runRet = some s') :
     (s.shuts s.runShut).pc = .doneNil ∧ (∀ k, s.closes k = .idle) ∧
     ∀ c, preReg (s.conns c).pc = true ∨
       ((s.conns c).regClosing = true ∧ (s.conns c).reads = 0 ∧ (s.conns c).forwards = 0 ∧
@@ -661,6 +668,9 @@ def cancelWithRequestAtOrigin : List Action :=
 -- no limit, no signals: the context cannot expire, Shutdown keeps polling; the exchange completes, then run returns
 example : (run initNoLimit (cancelWithRequestAtOrigin ++ [.ctxExpire 0])).isSome = false := by decide
 example : (run initNoLimit (cancelWithRequestAtOrigin ++ [.ctxCancel 0])).isSome = false := by decide
+-- … whatever signal is delivered meanwhile
+example : (run initNoLimit (cancelWithRequestAtOrigin ++ [.sig 10 0, .sig 28 0, .shutTimer 0, .shutPoll 0, .shutCtx 0])).isSome =
+    false := by decide
 
 example : (run initNoLimit (cancelWithRequestAtOrigin ++
     [.shutTimer 0, .shutPoll 0, .originAnswer 0, .conn 0 .respReady, .conn 0 .writeHead, .conn 0 .writeDone,
@@ -806,7 +816,7 @@ example : (run init (openConn 0 ++ toOrigin 0 { connect := true } ++
 /-! ## I. `run`: however the drain ends, what was accepted is closed before `Run` returns
 
   The context of run's `Shutdown` can be done because the shutdown timeout passed (`ctxExpire`) or because
-  a second shutdown signal arrived during the drain (`ctxCancel`).  `Shutdown` then returns
+  a second shutdown signal — a signal of the configured set — arrived during the drain (`sig n k`).  `Shutdown` then returns
   `DeadlineExceeded` resp. `Canceled`; in BOTH cases `run` goes on to `Close`. -/
 
 /-- the continuation of `run` after its `Shutdown` returned is decided by "nil or not" alone: an error —
@@ -869,19 +879,22 @@ theorem c11_run_returns_everything_closed {s s' : State} (h : Reachable s) (hst 
     timeout is -/
 theorem c11_run_ctx_done_needs_cfg {s : State} (h : Reachable s)
     (hr : s.runner = .inShutdown ∨ s.runner = .inClose ∨ s.runner = .finished) :
-    ((s.shuts s.runShut).done = some .cancel → s.cfgSignals = true) ∧
+    ((s.shuts s.runShut).done = some .cancel → s.cfgSignals ≠ []) ∧
     ((s.shuts s.runShut).done = some .deadline → s.cfgNoLimit = false) := by
   have hk := c11_run_ctx_is_configured h hr
   have hd := c11_ctx_done_reason h s.runShut
-  exact ⟨fun h1 => hk.2.2 ▸ hd.2 h1, fun h1 => hk.2.1 ▸ hd.1 h1⟩
+  refine ⟨fun h1 => ?_, fun h1 => hk.2.1 ▸ hd.1 h1⟩
+  rcases hd.2 h1 with h2 | h2
+  · rw [hk.2.2.1] at h2; cases h2
+  · rw [hk.2.2.2] at h2; exact h2
 
 /-- shutdown signals configured, a long shutdown timeout, one request parked at the origin: the drain is
     ended by a second signal -/
 def secondSignal : List Action :=
-  cancelWithRequestAtOrigin ++ [.ctxCancel 0, .shutCtx 0, .shutUnlock 0]
+  cancelWithRequestAtOrigin ++ [.sig 10 0, .shutCtx 0, .shutUnlock 0]
 
 -- Shutdown returns Canceled; run calls Close, which closes the socket under the handler; run returns
-example : (run (initCfg false true) (secondSignal ++
+example : (run (initCfg false [10]) (secondSignal ++
     [.runAfterShutdown 0, .closeLock 0, .closeCloseCh 0, .closeConn 0 0, .closeAll 0, .closeUnlock 0, .runAfterClose,
      .runRet, .closedSeen 0])).map
       (fun s => ((s.shuts 0).done, (s.conns 0).pc, (s.conns 0).sockClosed, s.runner, s.closes 0)) =
@@ -889,19 +902,24 @@ example : (run (initCfg false true) (secondSignal ++
 
 -- without shutdown signals there is no second signal
 example : (run init secondSignal).isSome = false := by decide
+-- … and a signal outside the configured set is none either (SIGUSR2 = 12 when only SIGUSR1 = 10 is configured)
+example : (run (initCfg false [10]) (cancelWithRequestAtOrigin ++ [.sig 12 0, .shutCtx 0])).isSome = false := by decide
+example : (run (initCfg false [10, 12]) (cancelWithRequestAtOrigin ++ [.sig 12 0, .shutCtx 0])).isSome = true := by decide
+-- run's context has no other canceller
+example : (run (initCfg false [10]) (cancelWithRequestAtOrigin ++ [.ctxCancel 0])).isSome = false := by decide
 
 -- run cannot return without having closed
-example : (run (initCfg false true) (secondSignal ++ [.runRet])).isSome = false := by decide
+example : (run (initCfg false [10]) (secondSignal ++ [.runRet])).isSome = false := by decide
 
 /-- WITNESS for the "Close only on DeadlineExceeded" variant (`Variant.closeOnDeadlineOnly`: the fallback
     rewritten as a switch on `errors.Is(err, context.DeadlineExceeded)`): after a second signal `Run`
     returns with the request still at its origin and the accepted socket open; ended by the timeout the
     same drain is closed as it should be. -/
 theorem c11_close_on_deadline_only_variant_witness :
-    (runV { closeOnDeadlineOnly := true } (initCfg false true) (secondSignal ++ [.runAfterShutdown 0, .runRet])).map
+    (runV { closeOnDeadlineOnly := true } (initCfg false [10]) (secondSignal ++ [.runAfterShutdown 0, .runRet])).map
       (fun s => ((s.shuts 0).done, (s.conns 0).pc, (s.conns 0).sockClosed, s.runner, s.closes 0)) =
       some (some .cancel, .awaitOrigin, false, .finished, .idle) ∧
-    (runV { closeOnDeadlineOnly := true } (initCfg false true) (cancelWithRequestAtOrigin ++
+    (runV { closeOnDeadlineOnly := true } (initCfg false [10]) (cancelWithRequestAtOrigin ++
       [.ctxExpire 0, .shutCtx 0, .shutUnlock 0, .runAfterShutdown 0, .closeLock 0, .closeCloseCh 0, .closeConn 0 0,
        .closeAll 0, .closeUnlock 0, .runAfterClose, .runRet])).map
       (fun s => ((s.shuts 0).done, (s.conns 0).sockClosed, s.runner, s.closes 0)) =
@@ -912,16 +930,16 @@ theorem c11_close_on_deadline_only_variant_witness :
     a connection that read a request is closed when `Run` returns) -/
 def c11_close_on_deadline_only_variant_full : Prop :=
   ∀ (as : List Action) (s : State) (c : ConnId),
-    runV { closeOnDeadlineOnly := true } (initCfg false true) (as ++ [.runRet]) = some s →
+    runV { closeOnDeadlineOnly := true } (initCfg false [10]) (as ++ [.runRet]) = some s →
     (s.conns c).reads ≠ 0 → (s.conns c).sockClosed = true
 
 /-- … is FALSE -/
 theorem c11_close_on_deadline_only_variant_full_false : ¬ c11_close_on_deadline_only_variant_full := by
   intro h
-  have hsome : (runV { closeOnDeadlineOnly := true } (initCfg false true)
+  have hsome : (runV { closeOnDeadlineOnly := true } (initCfg false [10])
       ((secondSignal ++ [.runAfterShutdown 0]) ++ [.runRet])).isSome = true := by decide
   obtain ⟨s, hs⟩ := Option.isSome_iff_exists.mp hsome
-  have hv : (runV { closeOnDeadlineOnly := true } (initCfg false true)
+  have hv : (runV { closeOnDeadlineOnly := true } (initCfg false [10])
       ((secondSignal ++ [.runAfterShutdown 0]) ++ [.runRet])).map
       (fun s => ((s.conns 0).reads, (s.conns 0).sockClosed)) = some (1, false) := by decide
   rw [hs] at hv
@@ -929,6 +947,185 @@ theorem c11_close_on_deadline_only_variant_full_false : ¬ c11_close_on_deadline
   have := h _ s 0 hs (by rw [hv.1]; simp)
   rw [hv.2] at this
   cases this
+
+/-! ## J. Signals: only a signal of the configured SET ends the drain
+
+  `shutdownContext` subscribes run's context (`signal.NotifyContext`) to `ShutdownSignals` — and only when
+  that list is not empty.  Any signal can be delivered to the process at any time (`sig n k`: SIGWINCH,
+  SIGCHLD, the runtime's own SIGURG, a SIGUSR2 when only SIGUSR1 is configured …); one outside the
+  configured set changes NOTHING, one inside it is what "a second shutdown signal" means. -/
+
+/-- any signal can be delivered at any time, whatever the proxy is doing -/
+theorem c11_signal_always_deliverable (s : State) (n : Sig) (k : CallId) : (step s (.sig n k)).isSome = true := by
+  simp only [step]
+  split <;> rfl
+
+/-- a delivered signal the context of call `k` is not subscribed to changes no state -/
+theorem c11_unconfigured_signal_no_effect (s : State) (n : Sig) (k : CallId) (hn : n ∉ (s.shuts k).sigs) :
+    step s (.sig n k) = some s := by
+  simp only [step]
+  rw [if_neg (fun h => hn h.2)]
+
+/-- … in particular, during the drain of `run`, a signal outside the configured `ShutdownSignals` — and EVERY
+    signal when that set is empty — leaves the whole state as it is: the grace context, `Shutdown`'s wait,
+    every exchange in flight -/
+theorem c11_run_unconfigured_signal_no_effect {s : State} (h : Reachable s)
+    (hr : s.runner = .inShutdown ∨ s.runner = .inClose ∨ s.runner = .finished) (n : Sig)
+    (hn : n ∉ s.cfgSignals) : step s (.sig n s.runShut) = some s :=
+  c11_unconfigured_signal_no_effect s n s.runShut (by rw [(c11_run_ctx_is_configured h hr).2.2.2]; exact hn)
+
+/-- a signal of the set a live context is subscribed to cancels it (`ctx.Err()` = `Canceled`, unless the
+    context was done before: the first reason stays) and does nothing else -/
+theorem c11_configured_signal_cancels {s s' : State} (n : Sig) (k : CallId) (hc : (s.shuts k).pc ≠ .idle)
+    (hn : n ∈ (s.shuts k).sigs) (hst : step s (.sig n k) = some s') :
+    s' = setShut s k (ctxDone (s.shuts k) .cancel) ∧
+    ((s.shuts k).done = none → (s'.shuts k).done = some .cancel) ∧ (s'.shuts k).pc = (s.shuts k).pc := by
+  simp only [step] at hst
+  rw [if_pos ⟨hc, hn⟩] at hst
+  cases hst
+  refine ⟨rfl, fun hd => ?_, ?_⟩ <;> simp [setShut, ctxDone, *]
+
+/-- the context `run` hands to `Shutdown` becomes cancelled by ONE kind of step only: the delivery of a signal
+    of the configured set -/
+theorem c11_run_ctx_cancelled_only_by_configured_signal {s s' : State} (h : Reachable s)
+    (hr : s.runner = .inShutdown ∨ s.runner = .inClose ∨ s.runner = .finished) (a : Action)
+    (hst : step s a = some s') (h0 : (s.shuts s.runShut).done ≠ some .cancel)
+    (h1 : (s'.shuts s.runShut).done = some .cancel) : ∃ n, a = .sig n s.runShut ∧ n ∈ s.cfgSignals := by
+  obtain ⟨hpc, _, hcb, hsg⟩ := c11_run_ctx_is_configured h hr
+  by_cases ho : a.shutOf = some s.runShut
+  · cases a <;> simp only [Action.shutOf, Option.some.injEq, reduceCtorEq] at ho
+    case sig n k =>
+      subst ho
+      refine ⟨n, rfl, ?_⟩
+      simp only [step] at hst
+      split at hst
+      · rename_i hg; rw [← hsg]; exact hg.2
+      · cases hst; exact absurd h1 h0
+    all_goals
+      subst ho
+      simp only [step] at hst
+      repeat' split at hst
+      all_goals first
+        | (simp at hst; done)
+        | (simp only [Option.some.injEq] at hst; subst hst
+           simp_all [setShut, ctxDone]
+           done)
+        | (simp only [Option.some.injEq] at hst; subst hst
+           revert h1 h0; simp only [setShut, ctxDone, if_true]
+           cases (s.shuts s.runShut).done <;> simp)
+  · rw [step_shuts_other a s.runShut hst ho] at h1
+    exact absurd h1 h0
+
+/-- with an EMPTY `ShutdownSignals` the context of the drain is never cancelled — whatever signals the process
+    receives; it is done only because the shutdown timeout passed (`ctxExpire`), and never at all with the
+    timeout 0 -/
+theorem c11_empty_signals_run_ctx_never_cancelled {s : State} (h : Reachable s) (hsg : s.cfgSignals = [])
+    (hr : s.runner = .inShutdown ∨ s.runner = .inClose ∨ s.runner = .finished) :
+    (s.shuts s.runShut).done ≠ some .cancel ∧
+    (∀ w, (s.shuts s.runShut).done = some w → w = .deadline ∧ s.cfgNoLimit = false) ∧
+    (s.cfgNoLimit = true → (s.shuts s.runShut).done = none) := by
+  have hc : (s.shuts s.runShut).done ≠ some .cancel :=
+    fun hd => (c11_run_ctx_done_needs_cfg h hr).1 hd hsg
+  have hw : ∀ w, (s.shuts s.runShut).done = some w → w = .deadline ∧ s.cfgNoLimit = false := by
+    intro w hd
+    cases w with
+    | deadline => exact ⟨rfl, (c11_run_ctx_done_needs_cfg h hr).2 hd⟩
+    | cancel => exact absurd hd hc
+  refine ⟨hc, hw, fun hn => ?_⟩
+  cases hd : (s.shuts s.runShut).done with
+  | none => rfl
+  | some w => have := (hw w hd).2; rw [hn] at this; cases this
+
+/-- … so with an empty set and a shutdown timeout that has not passed, `run` does not call `Close`: every
+    `Close` is idle, no socket is closed under a handler, whatever was delivered -/
+theorem c11_empty_signals_no_close_before_deadline {s : State} (h : Reachable s) (hsg : s.cfgSignals = [])
+    (hr : s.runner ≠ .idle) (hd : (s.shuts s.runShut).done ≠ some .deadline) : ∀ k, s.closes k = .idle := by
+  intro k
+  cases hcl : s.closes k with
+  | idle => rfl
+  | _ =>
+    have hc := c11_run_closes_only_after_ctx_done h hr k (by rw [hcl]; simp)
+    have hi := ctxinv_reachable h
+    have hp := hi.onlyS (hi.apiRun hr) s.runShut (by
+      rw [show (ctl s).shuts s.runShut = s.shuts s.runShut from rfl, hc.2.1]; simp)
+    have hrp : s.runner = .inShutdown ∨ s.runner = .inClose ∨ s.runner = .finished := by
+      have := hp.1
+      revert this
+      show runnerPast s.runner = true → _
+      cases s.runner <;> simp [runnerPast]
+    obtain ⟨w, hw⟩ := Option.isSome_iff_exists.mp hc.2.2
+    have := ((c11_empty_signals_run_ctx_never_cancelled h hsg hrp).2.1 w hw).1
+    rw [this] at hw
+    exact absurd hw hd
+
+-- SIGUSR1 configured, a request parked at the origin: SIGWINCH (28), SIGURG (23), SIGUSR2 (12) are delivered during
+-- the drain, nothing happens; the origin answers, the exchange completes in full, Shutdown returns nil, run returns
+example : (run (initCfg false [10]) (cancelWithRequestAtOrigin ++
+    [.sig 28 0, .sig 23 0, .shutTimer 0, .sig 12 0, .shutPoll 0, .originAnswer 0, .conn 0 .respReady, .conn 0 .writeHead,
+     .conn 0 .writeDone, .conn 0 .sockClose, .conn 0 .counterDec, .shutTimer 0, .shutPoll 0, .shutUnlock 0,
+     .runAfterShutdown 0, .runRet, .respSeen 0 true, .closedSeen 0])).map
+      (fun s => (view 0 s, (s.shuts 0).done, s.closes 0)) =
+    some ((0, true, .waitingForLockUnreg, true, .doneNil), none, .idle) := by decide
+
+-- the same with NO shutdown signals configured (an embedder's own configuration)
+example : (run init (cancelWithRequestAtOrigin ++
+    [.sig 28 0, .sig 10 0, .shutTimer 0, .shutPoll 0, .originAnswer 0, .conn 0 .respReady, .conn 0 .writeHead,
+     .conn 0 .writeDone, .conn 0 .sockClose, .conn 0 .counterDec, .shutTimer 0, .shutPoll 0, .shutUnlock 0,
+     .runAfterShutdown 0, .runRet, .respSeen 0 true, .closedSeen 0])).map
+      (fun s => (view 0 s, (s.shuts 0).done, s.closes 0)) =
+    some ((0, true, .waitingForLockUnreg, true, .doneNil), none, .idle) := by decide
+
+-- non-vacuity of the hypotheses: a reachable state in the drain with an empty set / with an unconfigured signal
+example : ∃ s, Reachable s ∧ s.runner = .inShutdown ∧ s.cfgSignals = [10] ∧ (12 : Sig) ∉ s.cfgSignals ∧
+    (s.shuts s.runShut).pc = .selecting := by
+  have hsome : (run (initCfg false [10]) cancelWithRequestAtOrigin).isSome = true := by decide
+  obtain ⟨s, hs⟩ := Option.isSome_iff_exists.mp hsome
+  have hv : (run (initCfg false [10]) cancelWithRequestAtOrigin).map
+      (fun s => (s.runner, s.cfgSignals, (s.shuts s.runShut).pc)) = some (.inShutdown, [10], .selecting) := by decide
+  rw [hs] at hv
+  simp only [Option.map_some, Option.some.injEq, Prod.mk.injEq] at hv
+  exact ⟨s, reachable_run (Reachable.start false [10]) hs, hv.1, hv.2.1, by rw [hv.2.1]; decide, hv.2.2⟩
+
+/-- the drain with NO shutdown signals configured and a long timeout, ended by an unrelated signal
+    (SIGWINCH = 28) -/
+def strayedSignal : List Action :=
+  cancelWithRequestAtOrigin ++ [.sig 28 0, .shutCtx 0, .shutUnlock 0, .runAfterShutdown 0, .closeLock 0,
+    .closeCloseCh 0, .closeConn 0 0, .closeAll 0, .closeUnlock 0, .runAfterClose, .runRet]
+
+/-- WITNESS for the "NotifyContext unconditionally" variant (`Variant.emptyMeansAll`: the guard
+    `len(cfg.ShutdownSignals) > 0` of `shutdownContext` dropped, so that an empty set subscribes to ALL signals):
+    an unrelated signal cancels the grace context, `Shutdown` returns `Canceled`, `run` calls `Close` and the
+    exchange waiting for its origin is cut, long before the shutdown timeout.  In the code the same delivery
+    changes nothing: `Shutdown` cannot take its context branch, the history is not a behaviour. -/
+theorem c11_empty_means_all_variant_witness :
+    (runV { emptyMeansAll := true } init strayedSignal).map
+      (fun s => ((s.shuts 0).done, (s.conns 0).pc, (s.conns 0).sockClosed, s.runner, s.closes 0)) =
+      some (some .cancel, .awaitOrigin, true, .finished, .done) ∧
+    (run init strayedSignal).isSome = false ∧
+    (run init (cancelWithRequestAtOrigin ++ [.sig 28 0])).map
+      (fun s => ((s.shuts 0).done, (s.shuts 0).pc, (s.conns 0).pc, (s.conns 0).sockClosed, s.runner)) =
+      some (none, .selecting, .awaitOrigin, false, .inShutdown) ∧
+    -- with a configured set the variant behaves like the code: the CLI defaults do not show the difference
+    (runV { emptyMeansAll := true } (initCfg false [10]) strayedSignal).isSome = false := by
+  decide
+
+/-- the statement of `c11_empty_signals_run_ctx_never_cancelled` for that variant -/
+def c11_empty_means_all_variant_full : Prop :=
+  ∀ (as : List Action) (s : State),
+    runV { emptyMeansAll := true } init as = some s → s.runner = .inShutdown → (s.shuts s.runShut).done ≠ some .cancel
+
+/-- … is FALSE -/
+theorem c11_empty_means_all_variant_full_false : ¬ c11_empty_means_all_variant_full := by
+  intro h
+  have hsome : (runV { emptyMeansAll := true } init (cancelWithRequestAtOrigin ++ [.sig 28 0])).isSome = true := by decide
+  obtain ⟨s, hs⟩ := Option.isSome_iff_exists.mp hsome
+  have hv : (runV { emptyMeansAll := true } init (cancelWithRequestAtOrigin ++ [.sig 28 0])).map
+      (fun s => (s.runner, s.runShut, (s.shuts 0).done)) = some (.inShutdown, 0, some .cancel) := by decide
+  rw [hs] at hv
+  simp only [Option.map_some, Option.some.injEq, Prod.mk.injEq] at hv
+  have := h _ s hs hv.1
+  rw [hv.2.1, hv.2.2] at this
+  exact this rfl
 
 end C11
 end FwdVerif
